@@ -34,7 +34,7 @@ BOUNDS = {
     'quick': '(a) <=2 lexemes over 64 and 3 over a 26-lexeme core, x{space,none} x 3 engines; (b) 30 expressions x 46 chars; '
              '(c) bodies <=4 over 18 symbols x 3 styles, \\x \\u fields over {0,1,f,Z,quote}, \\U field over {0,1,f,Z}; '
              '(d) 24 kinds of long token / deep nesting x lengths 1..10**5 (digits-then-letter only up to 4301: quadratic lexing time); (e) all 65536 BMP code points x 5 contexts + 64 astral',
-    'thorough': 'as quick with (a) 3 lexemes over all 64, (c) \\U field over {0,1,f,Z,quote} (5**8) x 3 styles, '
+    'thorough': 'as quick with (a) 3 lexemes over all 64 and 4 over the core (default engine), (c) bodies of length 5 in single quotes, \\U field over {0,1,f,Z,quote} (5**8) x 3 styles, '
                 '(e) additionally every code point of planes 1, 2, 14, 15, 16 alone',
 }
 
@@ -131,10 +131,10 @@ def _longest_digit_run(text):
     return best
 
 
-def judge(res, family, eng_name, text, case=None):
+def judge(res, family, eng_name, text, case=None, ident=None):
     case = case if case is not None else {'engine': eng_name, 'text': text}
     core.CURRENT_CASE[0] = case
-    res.case((family, eng_name, text))
+    res.case((family, eng_name, ident if ident is not None else text))
     out = outcome(engine(eng_name), text)
     res.evaluations += 1
     res.transitions += 1
@@ -167,7 +167,7 @@ def job_tokens(eng_name, firsts, alphabet_name, upto):
                 for sep in (' ', ''):
                     if n == 1 and sep == '':
                         continue
-                    judge(res, 'a', eng_name, sep.join(seq))
+                    judge(res, 'a', eng_name, sep.join(seq), ident=(sep, seq))
     res.sample({'family': 'a', 'engine': eng_name, 'text': ' '.join((firsts[0],) + (alphabet[3],) * (upto[-1] - 1))}, limit=1)
     return res
 
@@ -196,13 +196,14 @@ def job_edits(bases):
 # --------------------------------------------------------------------------
 # (c) escape shapes
 # --------------------------------------------------------------------------
-def job_escape_bodies(firsts):
+def job_escape_bodies(firsts, long_too):
+    """All bodies of length <= 4 starting with one of firsts, in the three styles (length 5 in '..' when long_too)."""
     res = Result()
     for q in QUOTES:
         if firsts[0] == ESC_ALPHA[0]:
             judge(res, 'c-body', 'default', q + q)
         for first in firsts:
-            for n in range(1, 5):
+            for n in range(1, 6 if long_too and q == "'" else 5):
                 for rest in itertools.product(ESC_ALPHA, repeat=n - 1):
                     judge(res, 'c-body', 'default', q + first + ''.join(rest) + q)
     res.sample({'family': 'c', 'text': "'" + firsts[0] + "\\x0'"}, limit=1)
@@ -348,10 +349,13 @@ def jobs(tier, seed):
         else:
             for i, sl in enumerate(chunks(LEXEMES, 16)):
                 out.append(('a-%s-3-%d' % (eng_name, i), 'job_tokens', (eng_name, sl, 'full', [3])))
+            if eng_name == 'default':
+                for i, sl in enumerate(chunks(CORE, 13)):
+                    out.append(('a-default-4-%d' % i, 'job_tokens', (eng_name, sl, 'core', [4])))
     for i, sl in enumerate(chunks(BASE, 6)):
         out.append(('b-%d' % i, 'job_edits', (sl,)))
-    for i, sl in enumerate(chunks(ESC_ALPHA, 9)):
-        out.append(('c-bodies-%d' % i, 'job_escape_bodies', (sl,)))
+    for i, sl in enumerate(chunks(ESC_ALPHA, 9 if tier == 'quick' else 18)):
+        out.append(('c-bodies-%d' % i, 'job_escape_bodies', (sl, tier == 'thorough')))
     small = ['0', '1', 'f', 'Z', 'QUOTE']
     out.append(('c-x', 'job_escape_fields', ('x', 2, small, [''])))
     out.append(('c-u', 'job_escape_fields', ('u', 4, small, [''])))
